@@ -44,3 +44,16 @@ package main
 //@ func runPipeline$1
 //@   requires sd != nil && sd.taskRunner != nil
 //@   modifies *
+
+// ---- C07: an error returned by a target reaches main (logrus.Fatal => exit status 1): it must not
+// be an urfave/cli ExitCoder carrying status 0 (cli.HandleExitCoder would exit with that status)
+//@ pred exitsNonZero(e error) := e != nil ==> !isExitCoder(e) || exitCodeOf(e) != 0
+//@ func runTarget
+//@   requires c != nil && taskRunner != nil && cfgLoaded() && runnerOK(taskRunner) && compiledClosed()
+//@   modifies *
+//@   ensures #C07.failed-target-exits-nonzero exitsNonZero(err)
+//@   ensures #C07.unknown-target-is-an-error old(!(name in cfg.Pipelines) && !(name in cfg.Tasks)) ==> err != nil
+//@   callsite runTask
+//@     assumepre taskOK(arg0) // tasks in the loaded configuration have Env and Variables (built by buildTask)
+//@   callsite runPipeline
+//@     assumepre schedulable(arg0) // established by buildPipeline for every registered pipeline (C18), fresh run
